@@ -642,7 +642,7 @@ func genCase(o opts) func(rt *rapid.T) Case {
 						for h > 0 && h < len(p.Value) && p.Value[h]&0xC0 == 0x80 {
 							h--
 						}
-						p.Value = p.Value[:h] + rapid.SampledFrom([]string{other, " a=" + other + "b" + other + " ", "/>", "="}).Draw(rt, "oq") + p.Value[h:]
+						p.Value = p.Value[:h] + rapid.SampledFrom([]string{other, "a=" + other + "b" + other, "/>", "="}).Draw(rt, "oq") // (no white space: the insertion may land at either end of a short value) + p.Value[h:]
 					}
 				case kUUID:
 					// identifiers as applications write them: the UUID follows the last ':'
